@@ -116,6 +116,10 @@ type FlowScenario struct {
 	Steps        []Step        `json:"steps"`
 	// Pairs [i, j]: runs i and j are runs of two nodes configured alike through different construction styles (C19)
 	Pairs [][]int `json:"pairs,omitempty"`
+	// NodeDefaults: the script of every visit of node N that has no script of its own (V is ignored); Longest: an upper
+	// bound on the number of node visits of a run (the model's fuel) — for long paths written with a handful of scripts
+	NodeDefaults []LeafScript `json:"nodeDefaults,omitempty"`
+	Longest      int          `json:"longest,omitempty"`
 	// RBudget (family "rflow"): the retry budget given to the ROOT flow of the (only) run through its embedded BaseNode,
 	// `flyt.WithMaxRetries(n)(flow.BaseNode)`, before the run
 	RBudget *int `json:"rbudget,omitempty"`
@@ -345,6 +349,11 @@ var defaultLeafScript = LeafScript{Prep: "!999", Fb: "!997", Post: "!996"}
 func (e *runtimeEnv) leafScript(n, v int) *LeafScript {
 	if s, ok := e.leafScr[[2]int{n, v}]; ok {
 		return s
+	}
+	for i := range e.sc.NodeDefaults {
+		if e.sc.NodeDefaults[i].N == n {
+			return &e.sc.NodeDefaults[i]
+		}
 	}
 	return &defaultLeafScript
 }
